@@ -547,7 +547,7 @@ def h_symbols(eng, target, case, fmt="elf"):
             name = ictx.temporary_label("skip")
             return render([tok("o"), tok("jcc", name), tok("o2"), tok("label", name), tok("o")], target)
         patch = Patch.from_function(body, Constraints(x86_syntax=xs))
-        rounds = eng.choose("contexts", [2, 3])
+        rounds = eng.choose("contexts", [2, 3, 6])  # six contexts: suffixes pass from one digit to two
         for _ in range(rounds):
             ctx = RewritingContext(m, [])
             ctx.insert_at(sorted(m.code_blocks, key=lambda b: b.address)[0], 0, patch)
@@ -670,6 +670,10 @@ PROGRAMS = {
     "align-bytes-reached": [tok("call", "func"), tok("byte"), tok("align", 4), tok("byte"), tok("label", "lbl"), tok("ret")],
     "align-data": [tok("o"), tok("ret"), tok("byte"), tok("align", 8), tok("byte"), tok("label", "d"), tok("word", "obj")],
     "align-first": [tok("align", 16), tok("o"), tok("jmp", "func"), tok("align", 4), tok("align", 8), tok("o2")],
+    # two labels at one position: a conditional jump to the first one; the pair in front of unreachable data; at the very end
+    "jcc-two-labels": [tok("label", "top"), tok("label", "again"), tok("o"), tok("jcc", "top"), tok("jcc", "again"), tok("ret")],
+    "two-labels-data": [tok("o"), tok("ret"), tok("label", "a"), tok("label", "b"), tok("byte"), tok("byte")],
+    "two-labels-end": [tok("o"), tok("ret"), tok("label", "a"), tok("label", "b")],
     "arm-reloc": [tok("lo12", "obj"), tok("o"), tok("lo12add", "obj"), tok("lea", "obj"), tok("lo12add", "ext"), tok("lo12", "ext"), tok("ret")],
 }
 
